@@ -147,6 +147,9 @@ fn tie_scenario(rng: &mut Rng) -> (String, String, &'static str) {
     if rng.chance(1, 2) {
         // holdings with no route to TGT at all
         ledger.push_str("2024/01/06 stray\n    Assets:Stray    1 QQA\n    Assets:Stray    2 QQB\n    Assets:Stray    3 QQC\n    Equity:Opening\n\n");
+        // further accounts, each with one holding that has no route either: which account the
+        // failure names must not depend on the run
+        ledger.push_str("2024/01/07 more strays\n    Assets:Alpha    5000 MILES\n    Liabilities:Zebra    -12 LUNCH\n    Expenses:Middle    3 POINTS\n    Equity:Opening\n\n");
         family = "several-unconvertible-commodities";
     } else {
         family = "equal-distance-chains";
